@@ -131,12 +131,12 @@ theorem checkOK_step {r : Repo} {e : Ev} (hg : addGuard r e = true) (hc : checkO
       intro en hen
       exact entryOK_mono hsub (this en hen)
   | saveSnap s sn =>
-    simp only [addGuard, Bool.and_eq_true] at hg
+    simp only [addGuard] at hg
     refine ⟨indexSound_mono_step hsub rfl hi, snapsOK_of hsub ?_ hs⟩
     intro x hx
     simp only [apply, List.mem_cons] at hx
     rcases hx with rfl | hx
-    · exact Or.inr hg.1
+    · exact Or.inr hg
     · exact Or.inl hx
   | removePack p => simp [addGuard] at hg
   | removeIndex i => simp [addGuard] at hg
